@@ -1,5 +1,6 @@
 import QV.Model.Decopt
 import QV.Proofs.Decopt
+import QV.Proofs.Decopt2a
 import QV.Proofs.CompilerInv
 import QV.Proofs.CompilerSem
 /-!
@@ -8,8 +9,7 @@ import QV.Proofs.CompilerSem
 The re-synthesis of a section is `Compiler.compile (symbols n) exprs none false`: every qubit an
 argument, no return bits, no final uncomputation.  This file proves, about the compiler model:
 
-* `xonly_ok` – a splice of the `xonly` shape (every simplified definition is `q = q` or `q = ~q`
-  and the new gates are the X gates of the self-negations) is `SectionOK`;
+* (`xonly_ok` – a splice of the `xonly` shape is `SectionOK` – now in `QV/Proofs/Decopt2a.lean`);
 * `stable_xonly` – for pairwise distinct definitions of `q0 … q{n-1}`, a re-synthesis whose qubit
   map is still `nameStable` is of the `xonly` shape.  Reason: as long as every definition so far
   was `q = q` or `q = ~q` the compiler state is `Clean` (no ancilla, nothing cached but symbols, the
@@ -20,157 +20,6 @@ argument, no return bits, no final uncomputation.  This file proves, about the c
 -/
 namespace QV.Decopt
 open QV QV.Decompiler QV.Compiler
-
-/-! ## structural equality of expressions -/
-
-mutual
-theorem bexp_beq_eq : ∀ a b : BExp, BExp.beq a b = true → a = b
-  | .tt, b => by cases b <;> simp [BExp.beq]
-  | .ff, b => by cases b <;> simp [BExp.beq]
-  | .sym n, b => by cases b <;> simp [BExp.beq]
-  | .not a, b => by cases b <;> simp [BExp.beq] <;> exact bexp_beq_eq a _
-  | .and l, b => by cases b <;> simp [BExp.beq] <;> exact bexp_beqList_eq l _
-  | .or l, b => by cases b <;> simp [BExp.beq] <;> exact bexp_beqList_eq l _
-  | .xor l, b => by cases b <;> simp [BExp.beq] <;> exact bexp_beqList_eq l _
-  | .ite c t e, b => by
-      cases b <;> simp [BExp.beq]
-      intro h1 h2 h3
-      exact ⟨bexp_beq_eq c _ h1, bexp_beq_eq t _ h2, bexp_beq_eq e _ h3⟩
-  | .imp x y, b => by
-      cases b <;> simp [BExp.beq]
-      intro h1 h2
-      exact ⟨bexp_beq_eq x _ h1, bexp_beq_eq y _ h2⟩
-theorem bexp_beqList_eq : ∀ a b : List BExp, BExp.beqList a b = true → a = b
-  | [], b => by cases b <;> simp [BExp.beqList]
-  | x :: xs, b => by
-      cases b <;> simp [BExp.beqList]
-      intro h1 h2
-      exact ⟨bexp_beq_eq x _ h1, bexp_beqList_eq xs _ h2⟩
-end
-
-theorem bexp_eq_of_beq {a b : BExp} (h : (a == b) = true) : a = b := bexp_beq_eq a b h
-
-/-! ## qubit names -/
-
-theorem qidx_some {n : Nat} {k : String} {i : Nat} (h : qidx n k = some i) : i < n ∧ k = qname i := by
-  unfold qidx at h
-  refine ⟨List.mem_range.mp (List.mem_of_find?_eq_some h), ?_⟩
-  have := List.find?_some h
-  exact (by simpa using this : qname i = k).symm
-
-theorem qidx_qname {n i : Nat} (hi : i < n) : qidx n (qname i) = some i := by
-  unfold qidx
-  exact find_unique (i := i) (List.mem_range.mpr hi) (by simp)
-    (fun j _ hj => qname_inj (by simpa using hj))
-
-theorem negated_nodup_aux (n : Nat) : ∀ l : List (String × BExp), (l.map (·.1)).Nodup →
-    (l.filterMap fun p => qidx n p.1).Nodup
-  | [], _ => by simp
-  | p :: l, h => by
-    rw [List.map_cons] at h
-    have hnd := List.nodup_cons.mp h
-    have ih := negated_nodup_aux n l hnd.2
-    rw [List.filterMap_cons]
-    cases hq : qidx n p.1 with
-    | none => simpa using ih
-    | some i =>
-      refine List.nodup_cons.mpr ⟨?_, ih⟩
-      intro hi
-      obtain ⟨p', hp', hq'⟩ := List.mem_filterMap.mp hi
-      have h1 := (qidx_some hq).2
-      have h2 := (qidx_some hq').2
-      exact hnd.1 (List.mem_map.mpr ⟨p', hp', h2.trans h1.symm⟩)
-
-theorem negated_nodup {n : Nat} {l : List (String × BExp)} (h : (l.map (·.1)).Nodup) :
-    (negated n l).Nodup := by
-  unfold negated
-  apply negated_nodup_aux
-  exact List.Nodup.sublist (List.Sublist.map _ List.filter_sublist) h
-
-theorem mem_negated {n : Nat} {l : List (String × BExp)} {i : Nat} :
-    i ∈ negated n l ↔ ∃ p ∈ l, selfNeg p = true ∧ qidx n p.1 = some i := by
-  unfold negated
-  simp only [List.mem_filterMap, List.mem_filter]
-  constructor
-  · rintro ⟨p, ⟨hp, hs⟩, hq⟩; exact ⟨p, hp, hs, hq⟩
-  · rintro ⟨p, hp, hs, hq⟩; exact ⟨p, ⟨hp, hs⟩, hq⟩
-
-/-! ## a splice of the `xonly` shape is harmless -/
-
-/-- **xonly ⇒ SectionOK.**  `exprs` are the section's decompiled expressions after a
-meaning-preserving rewriting `f` (`custom_simplify_logic2`); if they are all `q = q` or `q = ~q`
-and the new gates are the X gates of the self-negations, the new gates have the classical action
-of the section's gates. -/
-theorem xonly_ok {K : Kernel} (hK : K.Sound) (q : Quirks) (n : Nat) (sec : List AGate) (d : Dict)
-    (hd : expsOfSection q K n sec = .ok d) (f : BExp → BExp) (hf : ∀ ρ e, (f e).eval ρ = e.eval ρ)
-    (new : List AGate) (hx : xonly n (d.map fun p => (p.1, f p.2)) new = true) :
-    SectionOK n sec new := by
-  obtain ⟨hnd, hent⟩ := expsOfSection_entries hK q hd
-  simp only [xonly, Bool.and_eq_true, List.all_eq_true, Bool.or_eq_true, beq_iff_eq] at hx
-  obtain ⟨hall, hnew⟩ := hx
-  have hkeys : ((d.map fun p => (p.1, f p.2)).map (·.1)) = Dict.keys d := by
-    unfold Dict.keys; rw [List.map_map]; rfl
-  refine xonly_sectionOK K hK q n sec d hd new (negated n (d.map fun p => (p.1, f p.2)))
-    (negated_nodup (by rw [hkeys]; exact hnd)) hnew ?_ ?_
-  · intro i hi ρ
-    obtain ⟨p, hp, hs, hq⟩ := mem_negated.mp hi
-    obtain ⟨p0, hp0, rfl⟩ := List.mem_map.mp hp
-    have hk := (qidx_some hq).2
-    dsimp only at hk
-    have he : f p0.2 = .not (.sym p0.1) := bexp_eq_of_beq hs
-    have hget : d.get (qname i) = p0.2 := by
-      rw [← hk]; exact Dict.get_of_mem d hnd (k := p0.1) (e := p0.2) hp0
-    unfold expOf
-    rw [hget, ← hf ρ p0.2, he, hk]
-    rfl
-  · intro i hi hni ρ
-    unfold expOf
-    by_cases hm : qname i ∈ Dict.keys d
-    · obtain ⟨p0, hp0, hk⟩ := List.mem_map.mp hm
-      have hp : (p0.1, f p0.2) ∈ d.map fun p => (p.1, f p.2) := List.mem_map.mpr ⟨p0, hp0, rfl⟩
-      have hget : d.get (qname i) = p0.2 := by
-        rw [← hk]; exact Dict.get_of_mem d hnd (k := p0.1) (e := p0.2) hp0
-      rw [hget, ← hf ρ p0.2]
-      rcases hall _ hp with hid | hs
-      · have he : f p0.2 = .sym p0.1 := bexp_eq_of_beq hid
-        rw [he, hk]; rfl
-      · exact absurd (mem_negated.mpr ⟨_, hp, hs, by dsimp only; rw [hk]; exact qidx_qname hi⟩) hni
-    · rw [Dict.get_of_not_mem d _ hm]; rfl
-
-/-- the expressions of every section of a decompilation are the symbolic execution of its gates -/
-theorem decomp_exps {q : Quirks} {K : Kernel} {n a : Nat} {W : List AGate} {secs : List Section}
-    (h : Decomp q K n a W secs) : ∀ s ∈ secs, expsOfSection q K n s.gates = .ok s.exps := by
-  induction h with
-  | done => intro s hs; cases hs
-  | last a B R s _ _ hs =>
-    intro s' hs'
-    simp only [List.mem_singleton] at hs'; subst hs'
-    exact hs.exps_eq
-  | cons a B R sep W s secs _ _ _ _ hs _ ih =>
-    intro s' hs'
-    rcases List.mem_cons.mp hs' with hs' | hs'
-    · subst hs'; exact hs.exps_eq
-    · exact ih s' hs'
-
-theorem decompile_exps {q : Quirks} {K : Kernel} {n : Nat} {gs : List AGate} {secs : List Section}
-    (h : decompile q K n gs = .ok secs) : ∀ s ∈ secs, expsOfSection q K n s.gates = .ok s.exps :=
-  decomp_exps (decompile_decomp q K n gs secs h)
-
-/-- the simplified definitions of a section are keyed like its decompiled expressions: pairwise
-distinct names of qubits of the circuit -/
-theorem simplifySection_keysOK {K : Kernel} (hK : K.Sound) {q : Quirks} {n : Nat} {s : Section}
-    (hd : expsOfSection q K n s.gates = .ok s.exps) (simp : BExp → BExp) (K4 : Kernel4) :
-    keysOK n (simplifySection simp K4 s) = true := by
-  obtain ⟨hnd, hent⟩ := expsOfSection_entries hK q hd
-  unfold keysOK simplifySection
-  simp only [Bool.and_eq_true, decide_eq_true_eq, List.all_eq_true, List.map_map]
-  refine ⟨hnd, ?_⟩
-  intro p hp
-  obtain ⟨p0, hp0, rfl⟩ := List.mem_map.mp hp
-  obtain ⟨i, hi, hk, _⟩ := hent p0.1 p0.2 hp0
-  dsimp only
-  rw [hk, qidx_qname hi]; rfl
-
 
 /-! ## names of qubits are not names the compiler binds on its own -/
 
@@ -341,7 +190,6 @@ macro "pres_step0" : tactic => `(tactic| first
 
 theorem pres_markAncilla (w : Nat) : Pres (markAncilla w) := by
   unfold markAncilla
-  dsimp only
   repeat' pres_step0
 
 theorem pres_markAll : ∀ ws : List Nat, Pres (markAll ws)
@@ -359,12 +207,31 @@ theorem pres_cxAll (d : Nat) : ∀ is : List Nat, Pres (cxAll d is)
     have := pres_cxAll d is
     repeat' pres_step0
 
-theorem pres_xAll : ∀ is : List Nat, Pres (xAll is)
-  | [] => by unfold xAll; exact Pres.pure _
-  | i :: is => by
-    unfold xAll
-    have := pres_xAll is
-    repeat' pres_step0
+theorem pres_orGate (acc i d : Nat) : Pres (do cx acc d; cx i d; mcx [acc, i] d : M Unit) :=
+  Pres.bind (pres_cx _ _) (fun _ => Pres.bind (pres_cx _ _) (fun _ => pres_mcx _ _))
+
+theorem pres_orChain (dest : Nat) : ∀ (rest : List Nat) (acc : Nat), Pres (orChain dest acc rest)
+  | [], acc => by unfold orChain; exact Pres.pure _
+  | [i], acc => by
+    unfold orChain
+    exact pres_orGate _ _ _
+  | i :: j :: rest, acc => by
+    unfold orChain
+    refine Pres.bind pres_getFreeAncilla (fun d => ?_)
+    refine Pres.bind (pres_markAncilla _) (fun _ => ?_)
+    refine Pres.bind (pres_cx _ _) (fun _ => ?_)
+    refine Pres.bind (pres_cx _ _) (fun _ => ?_)
+    refine Pres.bind (pres_mcx _ _) (fun _ => ?_)
+    exact pres_orChain dest (j :: rest) d
+
+theorem pres_orWide (d : Nat) (erets es : List Nat) : Pres (orWide d erets es) := by
+  unfold orWide
+  dsimp only
+  split
+  · exact Pres.bind (Pres.throw _) (fun _ => by split <;> first | exact Pres.pure _ | exact pres_orChain _ _ _)
+  · split
+    · exact Pres.pure _
+    · exact pres_orChain _ _ _
 
 theorem pres_constFalse : Pres constFalse := by
   unfold constFalse
@@ -387,7 +254,7 @@ macro "pres_prim" : tactic => `(tactic| first
   | exact Pres.pure _ | exact Pres.throw _ | exact pres_getQC | exact pres_event _ | exact pres_xGate _
   | exact pres_cx _ _ | exact pres_mcx _ _ | exact pres_expqSet _ _ | exact pres_expqRemove _
   | exact pres_expqGet _ | exact pres_lookup _ | exact pres_getFreeAncilla
-  | exact pres_markAncilla _ | exact pres_markAll _ | exact pres_cxAll _ _ | exact pres_xAll _
+  | exact pres_markAncilla _ | exact pres_markAll _ | exact pres_cxAll _ _ | exact pres_orWide _ _ _
   | exact pres_constFalse | exact pres_constTrue | exact pres_cacheHit _ _
   | exact pres_compileSymbol_none _
   | assumption
@@ -737,6 +604,7 @@ structure Clean (n : Nat) (s : CState) : Prop where
   expq : ∀ p ∈ s.expq, isSym p.1 = true
   qmap_get : ∀ i, i < n → dictGet? s.qc.qmap (qname i) = some i
   qmap_mem : ∀ p ∈ s.qc.qmap, ∃ i, i < n ∧ p = (qname i, i)
+  kept : s.qc.kept = []
 
 theorem Clean.cinv {n : Nat} {s : CState} (h : Clean n s) : CInv n s := by
   refine ⟨Nat.le_of_eq h.nq.symm, fun p hp hn => ?_⟩
@@ -747,7 +615,7 @@ theorem Clean.cinv {n : Nat} {s : CState} (h : Clean n s) : CInv n s := by
 
 theorem Clean.scratch {n : Nat} {s : CState} (h : Clean n s) : ScratchGe n s :=
   ⟨fun a ha => (by rw [h.anc] at ha; cases ha), fun a ha => (by rw [h.free] at ha; cases ha),
-   fun a ha => (by rw [h.marked] at ha; cases ha)⟩
+   fun a ha => (by rw [h.marked] at ha; cases ha), fun a ha => (by rw [h.kept] at ha; cases ha)⟩
 
 theorem sym_beq_false {k e : BExp} (hk : isSym k = true) (he : isSym e = false) : (k == e) = false := by
   cases k <;> simp [isSym] at hk
@@ -855,7 +723,10 @@ theorem top_not {n i : Nat} (hi : i < n) (x : BExp) {iret : Nat} {s s1 : CState}
     obtain ⟨u, s3, hx, h3⟩ := run_bind_ok.mp h2
     obtain ⟨hir, rfl⟩ := run_pure_ok.mp h3
     exact Or.inr (Or.inl ⟨rfl, hir, xGate_run hx⟩)
-  · obtain ⟨eret, s2, he, h2⟩ := run_bind_ok.mp k1
+  · obtain ⟨sh, s0', hsh, k1'⟩ := run_bind_ok.mp k1
+    have hs0' := (expqGet?_ok hsh hc.good).1
+    rw [hs0'] at k1'
+    obtain ⟨eret, s2, he, h2⟩ := run_bind_ok.mp k1'
     obtain ⟨st1, _⟩ := exprSpec (B := fun _ => False) x none none he hc.good
       (by intro d hd; cases hd) (by intro y hy; cases hy)
     have hs2 : ScratchGe n s2 := st1.ge_keep n (Nat.le_of_eq hc.nq.symm) hc.scratch
@@ -865,7 +736,9 @@ theorem top_not {n i : Nat} (hi : i < n) (x : BExp) {iret : Nat} {s s1 : CState}
     split at h3
     · next hcond =>
       have hres : iret = eret := Ret.apply (P := (· = eret)) h3 (by repeat' ret_step)
-      have hmem : eret ∈ s3.qc.anc := by simpa using hcond
+      have hmem : eret ∈ s3.qc.anc := by
+        simp only [Bool.and_eq_true] at hcond
+        simpa using hcond.1.2
       exact topRes_ge hi (hres ▸ hs2.1 eret hmem)
     · obtain ⟨d, s4, hf, h4⟩ := run_bind_ok.mp h3
       have hd := getFreeAncilla_ge hf hs2 hn2
@@ -1001,7 +874,8 @@ theorem after_def_clean {n i : Nat} (hi : i < n) {x : String} {promote : Bool} {
   have hg2 : Good s2 := (expqSet_ok (B := fun _ => True) hset hc.good (by rw [hc.nq]; exact hi)).good
   have hc2 : Clean n s2 := by
     refine ⟨hg2, by rw [hq2]; exact hc.nq, by rw [hq2]; exact hc.anc, by rw [hq2]; exact hc.free,
-      by rw [hq2]; exact hc.marked, ?_, by rw [hq2]; exact hc.qmap_get, by rw [hq2]; exact hc.qmap_mem⟩
+      by rw [hq2]; exact hc.marked, ?_, by rw [hq2]; exact hc.qmap_get, by rw [hq2]; exact hc.qmap_mem,
+      by rw [hq2]; exact hc.kept⟩
     intro p hp
     rcases hk2 p hp with ⟨p0, hp0, he⟩ | he
     · rw [← he]; exact hc.expq p0 hp0
@@ -1012,7 +886,16 @@ theorem after_def_clean {n i : Nat} (hi : i < n) {x : String} {promote : Bool} {
   have hg5 : Good s5 := (expqRemove_ok (B := fun _ => True) hrem hc2.good).good
   refine ⟨⟨hg5, by rw [hq5]; exact hc2.nq, by rw [hq5]; exact hc2.anc, by rw [hq5]; exact hc2.free,
     by rw [hq5]; exact hc2.marked, fun p hp => hc2.expq p (expqRemove_sub hrem p hp),
-    by rw [hq5]; exact hc2.qmap_get, by rw [hq5]; exact hc2.qmap_mem⟩, by rw [hq5, hq2]⟩
+    by rw [hq5]; exact hc2.qmap_get, by rw [hq5]; exact hc2.qmap_mem, by rw [hq5]; exact hc2.kept⟩, by rw [hq5, hq2]⟩
+
+/-- `expqRemoveSymbol` keeps a clean state clean and leaves the circuit alone -/
+theorem expqRemoveSymbol_clean {n : Nat} {x : String} {u : Unit} {s s' : CState} (hc : Clean n s)
+    (h : (expqRemoveSymbol x).run s = .ok (u, s')) : Clean n s' ∧ s'.qc = s.qc := by
+  have hg : Good s' := (expqRemoveSymbol_ok (B := fun _ => True) h hc.good).good
+  unfold expqRemoveSymbol at h
+  have := run_modify_ok.mp h; subst this
+  exact ⟨⟨hg, hc.nq, hc.anc, hc.free, hc.marked, fun p hp => hc.expq p (List.mem_filter.mp hp).1,
+    hc.qmap_get, hc.qmap_mem, hc.kept⟩, rfl⟩
 
 
 /-! ## the definition loop -/
@@ -1037,7 +920,7 @@ theorem selfNeg_not (x : String) : selfNeg (x, .not (.sym x)) = true := by
 theorem defs_clean {n : Nat} : ∀ (defs : List (String × BExp)) {s s' : CState} {u : Unit} (F : List Nat),
     Clean n s → s.qc.gates.toList.map gkey = F.map xkey →
     (defs.map (·.1)).Nodup → (∀ p ∈ defs, (qidx n p.1).isSome = true) →
-    (compileDefs defs).run s = .ok (u, s') → nameStable n s'.qc.qmap = true →
+    (compileDefs none false defs).run s = .ok (u, s') → nameStable n s'.qc.qmap = true →
     defs.all (fun p => selfId p || selfNeg p) = true ∧ Clean n s' ∧
       s'.qc.gates.toList.map gkey = (F ++ negated n defs).map xkey
   | [], s, s', u, F, hc, hg, _, _, h, _ => by
@@ -1054,18 +937,22 @@ theorem defs_clean {n : Nat} : ∀ (defs : List (String × BExp)) {s s' : CState
     have hnd' := List.nodup_cons.mp hnd
     have hkeys' : ∀ p ∈ rest, (qidx n p.1).isSome = true := fun p hp => hkeys p (List.mem_cons_of_mem _ hp)
     unfold compileDefs at h
-    dsimp only at h
     obtain ⟨iret, s1, he, h1⟩ := run_bind_ok.mp h
     have htop := top_step hi e hc he
     obtain ⟨st1, hlt⟩ := exprSpec (B := fun _ => True) e none (some (qname i)) he hc.good
       (by intro d hd; cases hd) (fun _ _ => trivial)
-    obtain ⟨u1, s2, hset, h2⟩ := run_bind_ok.mp h1
+    obtain ⟨u0, s1', hrs, h1'⟩ := run_bind_ok.mp h1
+    obtain ⟨u1, s2, hset, h2⟩ := run_bind_ok.mp h1'
     obtain ⟨u2, s3, hmap, h3⟩ := run_bind_ok.mp h2
+    -- decopt mode (`returns=None`, no final uncomputation): the ancillas are released after every statement
+    rw [if_pos (show inlineUncompute none false (qname i) = true from rfl)] at h3
     obtain ⟨unc, s4, hunc, h4⟩ := run_bind_ok.mp h3
     obtain ⟨u3, s5, hrem, h5⟩ := run_bind_ok.mp h4
     rcases htop with ⟨rfl, rfl, rfl⟩ | ⟨rfl, rfl, happ⟩ | hne
     · -- `q{i} = q{i}`
-      obtain ⟨hc5, hq5⟩ := after_def_clean hi hc hset hmap hunc hrem
+      obtain ⟨hc1', hq1'⟩ := expqRemoveSymbol_clean hc hrs
+      obtain ⟨hc5, hq5'⟩ := after_def_clean hi hc1' hset hmap hunc hrem
+      have hq5 := hq5'.trans hq1'
       obtain ⟨hall, hcl, hgs⟩ := defs_clean rest F hc5 (by rw [hq5]; exact hg) hnd'.2 hkeys' h5 hst
       refine ⟨?_, hcl, ?_⟩
       · rw [List.all_cons, hall, selfId_sym]; rfl
@@ -1078,12 +965,14 @@ theorem defs_clean {n : Nat} : ∀ (defs : List (String × BExp)) {s s' : CState
         ⟨st1.good, by rw [happ.nq]; exact hc.nq, by rw [happ.anc]; exact hc.anc,
           by rw [happ.free]; exact hc.free, by rw [happ.marked]; exact hc.marked,
           by rw [happ.expq]; exact hc.expq, by rw [happ.qmap]; exact hc.qmap_get,
-          by rw [happ.qmap]; exact hc.qmap_mem⟩
+          by rw [happ.qmap]; exact hc.qmap_mem, by rw [happ.kept]; exact hc.kept⟩
       have hg1 : s1.qc.gates.toList.map gkey = (F ++ [iret]).map xkey := by
         obtain ⟨g, hcls, hw, hgates, _⟩ := happ.gates
         rw [hgates, Array.toList_push, List.map_append, hg, List.map_append]
         simp [gkey, xkey, hcls, hw]
-      obtain ⟨hc5, hq5⟩ := after_def_clean hi hc1 hset hmap hunc hrem
+      obtain ⟨hc1', hq1'⟩ := expqRemoveSymbol_clean hc1 hrs
+      obtain ⟨hc5, hq5'⟩ := after_def_clean hi hc1' hset hmap hunc hrem
+      have hq5 := hq5'.trans hq1'
       obtain ⟨hall, hcl, hgs⟩ := defs_clean rest (F ++ [iret]) hc5 (by rw [hq5]; exact hg1) hnd'.2 hkeys' h5 hst
       refine ⟨?_, hcl, ?_⟩
       · rw [List.all_cons, hall, selfNeg_not]; simp
@@ -1093,15 +982,13 @@ theorem defs_clean {n : Nat} : ∀ (defs : List (String × BExp)) {s s' : CState
         simp [hqi]
     · -- any other definition moves `q{i}` away from qubit `i` for good
       exfalso
-      have st2 := expqSet_ok (B := fun _ => True) hset st1.good hlt
+      have st1' := expqRemoveSymbol_ok (B := fun _ => True) hrs st1.good
+      have st2 := expqSet_ok (B := fun _ => True) hset st1'.good (Nat.lt_of_lt_of_le hlt st1'.nq_le)
       obtain ⟨st3, hkey⟩ := mapQubit_ok (B := fun _ => True) hmap st2.good
-        (Nat.lt_of_lt_of_le hlt st2.nq_le) trivial
-        (by intro hp
-            have : (qname i).startsWith "__" = true := by simpa using hp
-            simp [scratchName, this])
+        (Nat.lt_of_lt_of_le hlt (st1'.trans st2).nq_le) trivial (by intro hp; cases hp)
       have st4 : Step (· ∈ rest.map (·.1)) s3 s4 := uncompute_ok hunc st3.good
       have st5 : Step (· ∈ rest.map (·.1)) s4 s5 := expqRemove_ok hrem st4.good
-      obtain ⟨st6, _⟩ := compileDefs_ok (B := (· ∈ rest.map (·.1))) rest h5 st5.good
+      obtain ⟨st6, _⟩ := compileDefs_ok (B := (· ∈ rest.map (·.1))) (retBits := none) (doUnc := false) rest h5 st5.good
         (fun p hp => List.mem_map.mpr ⟨p, hp, rfl⟩)
       have hkeep := ((st4.trans st5).trans st6).qmap_keep (qname i) hnd'.1 (qname_not_reserved i)
       have hfin := List.all_eq_true.mp hst i (List.mem_range.mpr hi)
@@ -1158,10 +1045,10 @@ theorem addInputs_clean {n : Nat} {cs : List Nat} {u : Unit} {s1 : CState}
     Clean n s1 ∧ s1.qc.gates = #[] := by
   have hg0 : Good { choices := cs, inputs := symbols n } := good_init cs (symbols n)
   obtain ⟨st1, hn1, _, hpos⟩ := addInputs_ok (symbols n) h hg0
-  obtain ⟨ha, hf, hm⟩ := addInputs_scratch (symbols n) h
+  obtain ⟨ha, hf, hm, hk⟩ := addInputs_scratch (symbols n) h
   obtain ⟨hgt, hex, _⟩ := addInputs_quiet (symbols n) h
   have hmem := addInputs_qmap_mem (symbols n) h
-  refine ⟨⟨st1.good, by rw [hn1, symbols_length]; simp, ha, hf, hm, ?_, ?_, ?_⟩, hgt⟩
+  refine ⟨⟨st1.good, by rw [hn1, symbols_length]; simp, ha, hf, hm, ?_, ?_, ?_, hk⟩, hgt⟩
   · intro p hp; rw [hex] at hp; cases hp
   · intro i hi
     have := hpos (symbols_nodup n)
